@@ -14,6 +14,7 @@ import TemprenModel.Model.Printer
 import TemprenModel.Model.Pipeline
 import TemprenModel.Model.Prompt
 import TemprenModel.Model.Gather
+import TemprenModel.Model.Render
 open Tempren Tempren.Proto
 
 def hexNibble (c : Char) : Option Nat :=
@@ -552,6 +553,17 @@ def handle (line : String) : String :=
     match decStr pat, decStr str with
     | some p, some t => encBool (globMatch p t)
     | _, _ => "bad-op"
+  | ["renderseq", aliases, template, files] =>
+    -- aliases: list of name=pattern pairs as `<name>:<pattern>`; files: `<dir>:<rel>`
+    match decList aliases, decStr template, decListWith decFileRec files with
+    | some al, some t, some fs =>
+      let al' := al.filterMap (fun a => match a.splitOn ":" with
+        | [n, p] => (match decStr n, decStr p with | some n, some p => some (n, p) | _, _ => none)
+        | _ => none)
+      match compileTemplate al' t with
+      | none => "template-error"
+      | some p => encList ((renderSeq p fs).map (fun r => match r with | some s => encStr s | none => "E"))
+    | _, _, _ => "bad-op"
   | _ => "bad-op"
 
 partial def loop (h : IO.FS.Stream) (out : IO.FS.Stream) : IO Unit := do
